@@ -77,6 +77,32 @@ func c18judge(op int, pre bool, table *NetBIOSNameServer, raw []byte, id uint16,
 	}
 }
 
+// The servers are obtained from the library's constructors (whatever they initialise stays initialised) and then given
+// the harness's socket / listener and name table instead of being started on a port of their own.
+func c18newUDP(table *NetBIOSNameServer, conn *net.UDPConn) *UDPServer {
+	s, err := NewUDPServer("127.0.0.1:0", table)
+	vAssume(err == nil && s != nil)
+	s.conn = conn
+	return s
+}
+
+func c18newServer(table *NetBIOSNameServer, conn *net.UDPConn) *Server {
+	s, err := NewServer("127.0.0.1:0", false)
+	vAssume(err == nil && s != nil)
+	s.nbtns = table
+	s.listener = conn
+	return s
+}
+
+func c18newTCP(table *NetBIOSNameServer, l net.Listener) *TCPServer {
+	s, err := NewTCPServer("127.0.0.1:0", table)
+	vAssume(err == nil && s != nil)
+	if l != nil {
+		s.listener = l
+	}
+	return s
+}
+
 func c18table(pre bool) *NetBIOSNameServer {
 	t := NewNetBIOSNameServer(false)
 	if pre {
@@ -93,7 +119,7 @@ func H_C18_tcp_message() {
 	raw, err := req.Marshal()
 	vCheck(err == nil, "tcp/request-marshals")
 	table := c18table(pre)
-	s := &TCPServer{nbtns: table, handlers: NewPacketHandler(table), quit: make(chan struct{})}
+	s := c18newTCP(table, nil)
 	out, err := s.handleMessage(raw)
 	vCheck(err == nil, "tcp/handled")
 	if err == nil {
@@ -139,7 +165,7 @@ func (c *c18conn) SetWriteDeadline(t time.Time) error { return nil }
 func H_C18_tcp_connection() {
 	op1, op2 := vParam("op1"), vParam("op2")
 	table := c18table(false)
-	s := &TCPServer{nbtns: table, handlers: NewPacketHandler(table), quit: make(chan struct{})}
+	s := c18newTCP(table, nil)
 	var stream []byte
 	var ids [2]uint16
 	for i, op := range []int{op1, op2} {
@@ -194,7 +220,7 @@ func H_C18_udp_packet() {
 	}
 	defer srv.Close()
 	defer cli.Close()
-	s := &UDPServer{nbtns: table, conn: srv, handlers: NewPacketHandler(table), quit: make(chan struct{})}
+	s := c18newUDP(table, srv)
 	s.handlePacket(raw, cli.LocalAddr().(*net.UDPAddr))
 	buf := make([]byte, 600)
 	cli.SetReadDeadline(time.Now().Add(2 * time.Second))
@@ -218,7 +244,7 @@ func H_C18_udp_two_datagrams() {
 	}
 	defer srv.Close()
 	defer cli.Close()
-	s := &UDPServer{nbtns: table, conn: srv, handlers: NewPacketHandler(table), quit: make(chan struct{})}
+	s := c18newUDP(table, srv)
 	shared := make([]byte, MaxUDPSize)
 	var ids [2]uint16
 	for i := 0; i < 2; i++ {
@@ -303,7 +329,7 @@ func H_C18_udp_serve_isolation() {
 		return
 	}
 	defer cli.Close()
-	s := &UDPServer{nbtns: table, conn: srv, handlers: NewPacketHandler(table), quit: make(chan struct{})}
+	s := c18newUDP(table, srv)
 	ids := c18twoQueries(cli, srv.LocalAddr().(*net.UDPAddr))
 	s.wg.Add(1)
 	go s.serve()
@@ -323,7 +349,7 @@ func H_C18_server_serve_isolation() {
 		return
 	}
 	defer cli.Close()
-	s := &Server{nbtns: table, listener: srv, quit: make(chan struct{})}
+	s := c18newServer(table, srv)
 	ids := c18twoQueries(cli, srv.LocalAddr().(*net.UDPAddr))
 	s.wg.Add(1)
 	go s.serve()
@@ -348,7 +374,7 @@ func H_C18_server_packet() {
 	}
 	defer srv.Close()
 	defer cli.Close()
-	s := &Server{nbtns: table, listener: srv, quit: make(chan struct{})}
+	s := c18newServer(table, srv)
 	s.handlePacket(raw, cli.LocalAddr().(*net.UDPAddr))
 	buf := make([]byte, 600)
 	cli.SetReadDeadline(time.Now().Add(2 * time.Second))
@@ -406,7 +432,7 @@ func H_C18_udp_serve_two_clients() {
 	if err != nil {
 		return
 	}
-	s := &UDPServer{nbtns: table, conn: srv, handlers: NewPacketHandler(table), quit: make(chan struct{})}
+	s := c18newUDP(table, srv)
 	c18twoClients(srv, "udp-serve-2", func() {
 		s.wg.Add(1)
 		go s.serve()
@@ -423,7 +449,7 @@ func H_C18_server_serve_two_clients() {
 	if err != nil {
 		return
 	}
-	s := &Server{nbtns: table, listener: srv, quit: make(chan struct{})}
+	s := c18newServer(table, srv)
 	c18twoClients(srv, "server-serve-2", func() {
 		s.wg.Add(1)
 		go s.serve()
